@@ -772,7 +772,7 @@ func (cs *Contracts) parseFile(pkg string, raw []rawClause) error {
 				}
 			case "at":
 				// at store X [in loop K]: assert[tags] e   |  at call f [#n]: assert e | at return: assert e
-				m := regexp.MustCompile(`^(store|call|return|entry)\s*([\w.]*)\s*(?:#(\d+))?\s*(?:in loop (\d+))?\s*:\s*(\S+)\s+(.*)$`).FindStringSubmatch(rest)
+				m := regexp.MustCompile(`^(stored|store|mapupdate|call|return|entry)\s*([\w.]*)\s*(?:#(\d+))?\s*(?:in loop (\d+))?\s*:\s*(\S+)\s+(.*)$`).FindStringSubmatch(rest)
 				if m == nil {
 					return fail("bad at clause")
 				}
